@@ -1,6 +1,7 @@
 package rules
 
 import (
+	"go/token"
 	"fmt"
 	"go/types"
 	"os"
@@ -38,6 +39,9 @@ func (c *Ctx) newReplyAnalysis() *replyAnalysis {
 }
 
 func (ra *replyAnalysis) isHandoffChan(v ssa.Value) bool {
+	if _, isPhi := v.(*ssa.Phi); isPhi {
+		return allChanChoices(v, ra.isHandoffChan)
+	}
 	f, _ := core.LoadedField(core.Strip(v))
 	if f == nil {
 		return false
@@ -198,7 +202,59 @@ func (c *Ctx) storeFailEdges(fn *ssa.Function) map[core.Edge]bool {
 			out[e] = true
 		}
 	})
+	// a merged test: `err := store.A(); if err == nil { err = store.B() }; if err != nil {...}` -
+	// the tested value is a phi all of whose non-nil leaves are store-call errors
+	isStoreErr := func(v ssa.Value) bool {
+		if k, ok := v.(*ssa.Const); ok && k.Value == nil {
+			return true
+		}
+		var call *ssa.Call
+		switch x := v.(type) {
+		case *ssa.Call:
+			call = x
+		case *ssa.Extract:
+			call, _ = x.Tuple.(*ssa.Call)
+		}
+		if call == nil {
+			return false
+		}
+		_, isStore := c.isStoreCall(call)
+		return isStore
+	}
+	for _, b := range fn.Blocks {
+		ifi, ok := b.Instrs[len(b.Instrs)-1].(*ssa.If)
+		if !ok {
+			continue
+		}
+		a := core.NormCond(ifi.Cond)
+		if a.Op != token.EQL || !(core.IsNil(a.X) || core.IsNil(a.Y)) {
+			continue
+		}
+		v := a.X
+		if core.IsNil(a.X) {
+			v = a.Y
+		}
+		if _, isPhi := v.(*ssa.Phi); !isPhi || !isErrorType(v.Type()) {
+			continue
+		}
+		if !core.Derives(v, isStoreErr, true) || !core.Derives(v, func(x ssa.Value) bool {
+			_, isK := x.(*ssa.Const)
+			return !isK && isStoreErr(x)
+		}, false) {
+			continue
+		}
+		// the non-nil edge: atom `v == nil` is false there
+		idx := 1
+		if a.Negated {
+			idx = 0
+		}
+		out[core.Edge{From: b, Idx: idx}] = true
+	}
 	return out
+}
+
+func isErrorType(t types.Type) bool {
+	return types.Identical(t, types.Universe.Lookup("error").Type())
 }
 
 func (c *Ctx) checkReplyObligation() {
@@ -341,7 +397,7 @@ func (c *Ctx) checkConsumers(ra *replyAnalysis) {
 						}
 						return ra.isReplyInstr(x)
 					}
-					found, _ := core.PathFromEdgeAvoiding(fn, edges, target, isReply, cut)
+					found, _ := pathFromEdgeAvoidingNil(fn, edges, target, isReply, cut)
 					construct := fmt.Sprintf("%s: request received from %s.%s is answered or handed on before the next one", fk(fn), sp.typ, sp.field)
 					detail := ""
 					if found {
